@@ -274,6 +274,25 @@ Proof.
   rewrite blen_ser_message. lia.
 Qed.
 
+(* the tail of enc_partition_produce, for an arbitrary already-rendered set X (kept abstract so that no
+   conversion ever looks inside a rendered message) *)
+Lemma produce_tail X p out :
+  (let* buf' := Ok X in let* b := enc_bytes buf' in Ok (enc_i32 p ++ b)) = Ok out ->
+  out = enc_i32 p ++ enc_i32 (Z.of_nat (length X)) ++ X.
+Proof.
+  intros Henc. cbn [bind] in Henc. unfold enc_bytes in Henc.
+  destruct (ulen X <=? i32_max) eqn:E; cbn [bind] in Henc; [|discriminate].
+  injection Henc as <-. reflexivity.
+Qed.
+
+Lemma produce_tail_ok X p :
+  blen X <= i32_max ->
+  exists out, (let* buf' := Ok X in let* b := enc_bytes buf' in Ok (enc_i32 p ++ b)) = Ok out.
+Proof.
+  intros HX. cbn [bind]. unfold enc_bytes. change (ulen X) with (blen X).
+  destruct (blen X <=? i32_max) eqn:E; [|lia]. cbn [bind]. eexists. reflexivity.
+Qed.
+
 Lemma wrapper_tail attr v p out :
   in_i8 attr -> blen v < 2 ^ 31 - 26 ->
   (let* buf' := enc_message MESSAGE_MAGIC_BYTE attr (None, Some v) in
@@ -286,11 +305,22 @@ Proof.
   intros Hattr Hv Henc. pose proof (blen_nonneg v) as Hv0.
   assert (Hfit : fits (None, Some v)) by (unfold fits; cbn [fst snd olen]; lia).
   split; [apply spec_parse_single; [unfold in_i64; lia|exact Hattr|exact Hfit]|].
-  change MESSAGE_MAGIC_BYTE with 0 in Henc.
-  rewrite enc_message_ser in Henc by (cbn [olen]; lia). cbn [bind] in Henc.
-  unfold enc_bytes in Henc.
-  destruct (ulen (ser_message 0 attr None (Some v)) <=? i32_max) eqn:E; cbn [bind] in Henc; [|discriminate].
-  injection Henc as <-. reflexivity.
+  change (enc_message MESSAGE_MAGIC_BYTE attr (None, Some v))
+    with (enc_message 0 attr (None, Some v)) in Henc.
+  rewrite enc_message_ser in Henc by (cbn [olen]; lia).
+  apply produce_tail. exact Henc.
+Qed.
+
+Lemma wrapper_tail_ok attr v p :
+  blen v < 2 ^ 31 - 26 ->
+  exists out, (let* buf' := enc_message MESSAGE_MAGIC_BYTE attr (None, Some v) in
+               let* b := enc_bytes buf' in Ok (enc_i32 p ++ b)) = Ok out.
+Proof.
+  intros Hv. pose proof (blen_nonneg v) as Hv0.
+  change (enc_message MESSAGE_MAGIC_BYTE attr (None, Some v))
+    with (enc_message 0 attr (None, Some v)).
+  rewrite enc_message_ser by (cbn [olen]; lia).
+  apply produce_tail_ok. rewrite blen_ser_message. cbn [olen]. unfold i32_max. lia.
 Qed.
 
 (* "compressed value shorter than 2^31 - 26" is the third hypothesis: the wrapper message (null key,
@@ -338,22 +368,13 @@ Proof.
   destruct (C03_plain_ok recs Hfit) as [plain Hplain].
   specialize (Hsmall plain Hplain).
   unfold enc_partition_produce. rewrite Hplain. cbn [bind].
-  assert (Hgen : forall attr v, blen v < 2 ^ 31 - 26 ->
-            exists out, (let* buf' := enc_message MESSAGE_MAGIC_BYTE attr (None, Some v) in
-                         let* b := enc_bytes buf' in Ok (enc_i32 p ++ b)) = Ok out).
-  { intros attr v Hv. pose proof (blen_nonneg v) as Hv0. change MESSAGE_MAGIC_BYTE with 0.
-    rewrite enc_message_ser by (cbn [olen]; lia). cbn [bind]. unfold enc_bytes.
-    change (ulen (ser_message 0 attr None (Some v))) with (blen (ser_message 0 attr None (Some v))).
-    rewrite blen_ser_message. cbn [olen].
-    destruct (26 + 0 + blen v <=? i32_max) eqn:E; [|unfold i32_max in E; lia].
-    cbn [bind]. eexists. reflexivity. }
   destruct Hc as [Hc|Hc]; subst c.
   - change (COMPRESSION_GZIP =? COMPRESSION_NONE) with false.
     change (COMPRESSION_GZIP =? COMPRESSION_GZIP) with true in *. cbv iota in Hsmall |- *.
-    apply Hgen. exact Hsmall.
+    apply wrapper_tail_ok. exact Hsmall.
   - change (COMPRESSION_SNAPPY =? COMPRESSION_NONE) with false.
     change (COMPRESSION_SNAPPY =? COMPRESSION_GZIP) with false in *. cbv iota in Hsmall |- *.
-    apply Hgen. exact Hsmall.
+    apply wrapper_tail_ok. exact Hsmall.
 Qed.
 
 Theorem C03_none_in_request : forall cz p recs out,
@@ -367,7 +388,7 @@ Proof.
   change (COMPRESSION_NONE =? COMPRESSION_NONE) with true in Henc. cbv iota in Henc. cbn [bind] in Henc.
   unfold enc_bytes in Henc.
   destruct (ulen plain <=? i32_max) eqn:E; cbn [bind] in Henc; [|discriminate].
-  injection Henc as <-. exists plain. split; reflexivity.
+  injection Henc as <-. exists plain. split; [exact Hplain|reflexivity].
 Qed.
 
 Theorem C03_reject : forall recs e,
